@@ -632,6 +632,8 @@ class Collections:
         t = self.tree(e)
         if t is not None:
             return self._describe(t, 8, set())
+        if isinstance(e, ast.Name) and hasattr(e, "_at"):
+            return self._describe(e, 8, set())  # free variable of a nested function, seen from its definition
         if isinstance(e, COMPS):
             ctx, orig = self.fn.ctx_of(e)
             loop = orig if ctx is self.fi and isinstance(orig, COMPS) else e  # identity of the comprehension it was copied from
@@ -833,7 +835,7 @@ class Collections:
                 env = {b.target.id: tup}
 
                 def sbp(x):
-                    return splice_starred(substitute(copy_node(x, self.fi), env)) if x is not None else None
+                    return self.fn.simplify(splice_starred(substitute(copy_node(x, self.fi), env))) if x is not None else None
 
                 nb = [Binder(ast.Name(id=n_, ctx=ast.Store()), s_, b.loop, False, b.site) for n_, s_ in zip(names, src.args)]
                 later = [Binder(bb.target, sbp(bb.source) if any(isinstance(x, ast.Name) and x.id in env for x in ast.walk(bb.source)) else bb.source, bb.loop, bb.root, bb.site) for bb in c.binders[idx + 1:]]
@@ -901,7 +903,7 @@ class Collections:
                 inner_conds = [(substitute(copy_node(x, self.fi), ren), p) for x, p in ci.conds]
 
                 def sb(x):
-                    return substitute(copy_node(x, self.fi), env) if x is not None else None
+                    return self.fn.simplify(splice_starred(substitute(copy_node(x, self.fi), env))) if x is not None else None
 
                 nc_ren = {**c.ren, **ci.ren, **{k: v.id for k, v in ren.items()}}
                 nc = Contribution(
@@ -919,8 +921,16 @@ class Collections:
                 )
                 work.insert(0, nc)
 
-    @staticmethod
-    def _match_target(target: ast.AST, ci: Contribution) -> dict[str, ast.expr] | None:
+    def _match_target(self, target: ast.AST, ci: Contribution) -> dict[str, ast.expr] | None:
+        # for a, b in <named tuples built as T(x, y)>
+        if isinstance(target, (ast.Tuple, ast.List)) and isinstance(ci.elt, ast.Call) and ci.value is None:
+            cls_ = self.fn._class_of_ctor(ci.elt)
+            if cls_ is not None and self.fn.repo.lookup_method(cls_, "__init__") is None and any(b.endswith("NamedTuple") for b in cls_.bases):
+                names = [a for c in reversed(self.fn.repo.mro(cls_)) for a in c.ann_attrs]
+                if len(names) == len(target.elts) and all(isinstance(t, ast.Name) for t in target.elts):
+                    vals = [self.fn.ctor_field(ci.elt, n_) for n_ in names]
+                    if all(v is not None for v in vals):
+                        return {t.id: v for t, v in zip(target.elts, vals)}
         if isinstance(target, ast.Name):
             if ci.value is not None:
                 return {target.id: ci.elt}  # iterating a mapping yields its keys
